@@ -16,6 +16,10 @@ Driver for C14.
      join  `<l><r>:<durMs>:<cond>`   l, r = stream letters a..e (l ≠ r); registration order = list order
      op    `A<id>:<ts>:<key|->:<v>` .. `E…` (event whose source is stream a..e), `Wa<int>` .. `We<int>`,
            `U<i>` unregister_join(j<i>), `G<i>` register_join(j<i>, fresh node) — alternating per join, starting registered
+           `K` clear() — every join is unregistered at once; allowed at any time, any join may be registered again afterwards
+     `S` (all modes) statistics probe: get_stats / get_join_stats + get_all_stats are called; adds no call to the observation
+     key numbers are opaque here: the harness turns key n into a string (`key<n>`, from 100 a table of unusual but legal
+     keys — empty, blank, confusable, numeric-looking, very long …) that is pairwise distinct, so equal numbers = equal keys
   obs  := `nocalls` | call;call;…   call := batch/batch/… (one per registered join, registration order)
   drv_c14 model  : case       ↦ obs predicted by the model
   drv_c14 oracle : case | obs ↦ `ok <tags>` / `fail <clause>@<call>`
@@ -115,6 +119,8 @@ structure JCase where
   ms : List JOp
   cs : List COp := []       -- the same history with its control calls (`ms` = the routed calls only)
   ctl : Bool := false
+  xs : List XOp := []       -- the same history with its `clear()` calls as well
+  clr : Bool := false
 
 def streamOf (c : Char) : Option Nat :=
   if 'a' ≤ c ∧ c ≤ 'e' then some (c.toNat - 'a'.toNat)
@@ -152,6 +158,13 @@ def parseCOp (s : String) : Option COp :=
   else if hasDecoy s then none
   else (parseJOp s).map .op
 
+def parseXOp (s : String) : Option XOp :=
+  if s = "K" then some .clear else (parseCOp s).map .ctl
+
+def copOf : XOp → Option COp
+  | .ctl c => some c
+  | .clear => none
+
 def jopOf : COp → Option JOp
   | .op m => some m
   | _ => none
@@ -164,11 +177,14 @@ def parseJCase (line : String) : Option JCase :=
   match tokens line with
   | ["J", joins, ops] => do
     let jc ← (joins.splitOn "+").mapM parseJoin
-    let cs ← if ops = "-" then some [] else (ops.splitOn ",").mapM parseCOp
+    let xs ← if ops = "-" then some [] else (ops.splitOn ",").mapM parseXOp
+    let cs := xs.filterMap copOf
+    let clr := xs.any (· == .clear)
     let n := jc.length
     if !cs.all (fun c => match c with | .op _ => true | .unreg i => decide (i < n) | .reg i => decide (i < n)) then none
-    if !(List.range n).all (fun i => ctlValid i true cs) then none
-    pure { js := jc.map (·.1), conds := jc.map (·.2), ms := cs.filterMap jopOf, cs := cs, ctl := cs.any isCtl }
+    if !(List.range n).all (fun i => ctlValidX i true xs) then none
+    pure { js := jc.map (·.1), conds := jc.map (·.2), ms := cs.filterMap jopOf, cs := cs, ctl := cs.any isCtl,
+           xs := xs, clr := clr }
   | _ => none
 
 def showRow (row : List (List (Nat × Nat))) : String := "/".intercalate (row.map showCall)
@@ -181,10 +197,23 @@ def parseJObs (s : String) : Option (List (List (List (Nat × Nat)))) :=
 
 def isJ (line : String) : Bool := (tokens line).head? == some "J"
 
-def modelLine (line : String) : String :=
+/-- `S` tokens are statistics probes (`get_stats` / `get_join_stats` / `get_all_stats`): `&self` observers that add no
+call to the observation; the model and the oracle see the history without them -/
+def dropProbes (line : String) : String :=
+  let ts := tokens line
+  match ts.reverse with
+  | ops :: rest =>
+    let kept := (ops.splitOn ",").filter (· != "S")
+    let ops' := if kept.isEmpty then "-" else ",".intercalate kept
+    " ".intercalate (rest.reverse ++ [ops'])
+  | [] => line
+
+def modelLine (line0 : String) : String :=
+  let line := dropProbes line0
   if isJ line then
     match parseJCase line with
-    | some c => showJObs (if c.ctl then multiObsTraceC c.js c.cs else multiObsTrace c.js c.ms)
+    | some c => showJObs (if c.clr then multiObsTraceX c.js c.xs
+                          else if c.ctl then multiObsTraceC c.js c.cs else multiObsTrace c.js c.ms)
     | none => "bad-case"
   else
   match parseCase line with
@@ -226,6 +255,13 @@ def tagsOf (c : Case) (ops : List Op) (obs : List (List (Nat × Nat))) : List St
   ++ (if evs.any (·.key.isNone) then ["keyless"] else [])
   ++ (if c.decoys > 0 then ["decoy-key-field"] else [])
   ++ [s!"keys{keys.length}"]
+  ++ (if keys.any (· == 100) then ["empty-key"] else [])
+  ++ (if keys.any (fun k => decide (k ≥ 100 ∧ k < 200)) then ["unusual-key"] else [])
+  ++ (if keys.any (fun k => decide (k ≥ 200)) then ["long-key"] else [])
+  ++ (if keys.any (fun k => decide (k ≥ 100)) && cross.any (fun p => p.1.key.isSome && p.2.key.isSome && !sameKey p.1 p.2
+        && closeEnough P.W p.1 p.2 && P.cond p.1 p.2) then ["confusable-keys-kept-apart"] else [])
+  ++ (if keys.any (fun k => decide (k ≥ 100)) && cross.any (fun p => p.1.key.isSome && sameKey p.1 p.2
+        && closeEnough P.W p.1 p.2 && P.cond p.1 p.2 && decide (p.1.key.getD 0 ≥ 100)) then ["unusual-key-joined"] else [])
   ++ [s!"cond{c.cond}"]
   ++ (if cross.any (fun p => sameKey p.1 p.2 && closeEnough P.W p.1 p.2 && !P.cond p.1 p.2) then ["cond-filtered"] else [])
   ++ (if cross.any (fun p => sameKey p.1 p.2 && !closeEnough P.W p.1 p.2) then ["window-filtered"] else [])
@@ -343,19 +379,62 @@ def cTags (c : JCase) (obs : List (List (List (Nat × Nat)))) : List String :=
   ++ (c.conds.eraseDups.map (fun k => s!"cond{k}"))
   ++ (if n > 0 then ["nontrivial"] else [])
 
+def firstBadX : Nat → List JoinDef → List XOp → List (List (List (Nat × Nat))) → String
+  | i, [], xs, obs =>
+    if obs.length != xs.length then "calls" else if obs.all (·.isEmpty) then "multiOkX" else s!"extra-batch@0#j{i}"
+  | i, j :: js, xs, obs =>
+    match heads obs with
+    | none => s!"missing-batch@0#j{i}"
+    | some col =>
+      match livesBad i j true [] [] (xs.map (viewX i)) col with
+      | some e => s!"{e}#j{i}"
+      | none => firstBadX (i + 1) js xs (tails obs)
+
+def jKeyTags (ms : List JOp) : List String :=
+  let keys := (ms.filterMap (fun m => match m with | .ev _ e => e.key | _ => none)).eraseDups
+  (if keys.any (· == 100) then ["empty-key"] else [])
+  ++ (if keys.any (fun k => decide (k ≥ 100 ∧ k < 200)) then ["unusual-key"] else [])
+  ++ (if keys.any (fun k => decide (k ≥ 200)) then ["long-key"] else [])
+
+def xTags (c : JCase) (obs : List (List (List (Nat × Nat)))) : List String :=
+  let n := (obs.map List.flatten).flatten.length
+  let idx := List.range c.js.length
+  let nclr := (c.xs.filter (· == .clear)).length
+  let atStart : Bool := match c.xs with | x :: _ => x == .clear | [] => false
+  let back := (idx.filter (fun i => ((c.xs.dropWhile (· != .clear)).any (· == .ctl (.reg i))))).length
+  -- pairs delivered to a join after it was registered again following a clear()
+  let after := idx.any (fun i =>
+    let k := ((c.xs.zip (colOf i obs)).dropWhile (fun x => x.1 != .clear)).dropWhile (fun x => x.1 != .ctl (.reg i))
+    !(k.map (·.2)).flatten.isEmpty)
+  let hasWm := c.ms.any (fun m => match m with | .wm _ _ => true | _ => false)
+  ["multi", "clear", s!"joins{c.js.length}", s!"clears{nclr}", s!"joins-back-after-clear{back}"]
+  ++ [if n = 0 then "pairs0" else if n ≤ 2 then "pairs1-2" else "pairs3+"]
+  ++ (if atStart then ["clear-before-first-event"] else ["clear-mid-run"])
+  ++ (if c.cs.any (fun x => match x with | .unreg _ => true | _ => false) then ["unregister-and-clear"] else [])
+  ++ (if after then ["pairs-after-clear-and-register"] else [])
+  ++ (if hasWm then ["wm"] else [])
+  ++ (if n > 0 then ["nontrivial"] else [])
+
 def oracleJ (cs o : String) : String :=
   match parseJCase cs, parseJObs o.trimAscii.toString with
   | some c, some obs =>
     if !c.js.all (fun j => decide (WF (joinOps j c.ms))) then "bad-case-ids"
+    else if c.clr then
+      (if multiOkX 0 c.js c.xs obs then joinSp ("ok" :: xTags c obs ++ jKeyTags c.ms)
+       else s!"fail {firstBadX 0 c.js c.xs obs}")
     else if c.ctl then
-      (if multiOkC 0 c.js c.cs obs then joinSp ("ok" :: cTags c obs) else s!"fail {firstBadC 0 c.js c.cs obs}")
-    else if multiOk c.js c.ms obs then joinSp ("ok" :: jTags c obs)
+      (if multiOkC 0 c.js c.cs obs then joinSp ("ok" :: cTags c obs ++ jKeyTags c.ms)
+       else s!"fail {firstBadC 0 c.js c.cs obs}")
+    else if multiOk c.js c.ms obs then joinSp ("ok" :: jTags c obs ++ jKeyTags c.ms)
     else s!"fail {firstBadJ 0 c.js c.ms obs}"
   | _, _ => "bad-input"
 
 def oracleLine (line : String) : String :=
   match line.splitOn " | " with
-  | [cs, o] =>
+  | [cs0, o] =>
+    let hadProbe := dropProbes cs0 != (" ".intercalate (tokens cs0))
+    let cs := dropProbes cs0
+    (fun r => if hadProbe && r.startsWith "ok" then r ++ " stats-probes" else r) <|
     if isJ cs then oracleJ cs o else
     match parseCase cs, parseObs o.trimAscii.toString with
     | some c, some obs =>
